@@ -23,6 +23,7 @@ import (
 	"berty.tech/go-orbit-db/stores"
 	"berty.tech/go-orbit-db/stores/operation"
 	"berty.tech/go-orbit-db/stores/replicator"
+	"berty.tech/go-orbit-db/verifhook"
 	"github.com/ipfs/boxo/path"
 	cid "github.com/ipfs/go-cid"
 	datastore "github.com/ipfs/go-datastore"
@@ -306,6 +307,7 @@ func (b *BaseStore) InitBaseStore(ipfs coreiface.CoreAPI, identity *identityprov
 
 				// @FIXME(gfanton): should we run this in a goroutine ?
 				b.replicationLoadComplete(ctx, evt.Logs)
+				verifhook.At("store.loadend.done", b, evt.Logs)
 
 			case replicator.EventLoadProgress:
 				span.AddEvent("replicator-load-progress")
@@ -658,6 +660,7 @@ func (b *BaseStore) Sync(ctx context.Context, heads []ipfslog.Entry) error {
 		span.AddEvent("store-sync-head-verified")
 	}
 
+	verifhook.At("store.sync.spawn", b)
 	go b.Replicator().Load(ctx, heads)
 
 	return nil
@@ -841,6 +844,7 @@ func (b *BaseStore) AddOperation(ctx context.Context, op operation.Operation, on
 		return nil, fmt.Errorf("unable to append data on log: %w", err)
 	}
 
+	verifhook.At("store.add.appended", b, e)
 	b.recalculateReplicationStatus(e.GetClock().GetTime())
 
 	marshaledEntry, err := json.Marshal([]ipfslog.Entry{e})
@@ -852,6 +856,7 @@ func (b *BaseStore) AddOperation(ctx context.Context, op operation.Operation, on
 	if err != nil {
 		return nil, fmt.Errorf("unable to add data to cache: %w", err)
 	}
+	verifhook.At("store.add.headput", b, e)
 
 	if err := b.updateIndex(ctx); err != nil {
 		return nil, fmt.Errorf("unable to update index: %w", err)
